@@ -450,7 +450,26 @@ def rule_tls_causality(tree: Tree) -> RuleResult:
                 bad.append(f"{meth.qualname}: {src(n, 50)}")
             if isinstance(n, ast.Assign) and dotted(n.targets[0]) == "self.packet_buffer" and meth.name != "__init__":
                 bad.append(f"{meth.qualname}: {src(n, 50)}")
+            if isinstance(n, (ast.Assign, ast.AugAssign, ast.Delete)):
+                for t in (n.targets if not isinstance(n, ast.AugAssign) else [n.target]):
+                    if isinstance(t, ast.Subscript) and dotted(t.value) == "self.packet_buffer":
+                        bad.append(f"{meth.qualname}: {src(n, 50)} (an element of the capture-ordered buffer is replaced / removed)")
     r.ob(not bad, Finding("CAUS", "session:Session:packet-buffer-append-only", f"self.packet_buffer must only be appended to (capture order), found {bad}", m.relpath))
+    # per arm: the new packet is buffered and framing is attempted unconditionally (a gap-filling segment has a *lower* sequence number than what is buffered)
+    cfgc = cfg_of(f.node)
+    for arm_name in ("server", "client"):
+        r.instances += 1
+        calls = [c for c in body_walk(f.node) if isinstance(c, ast.Call) and dotted(c.func) == f"self.extract_{arm_name}_buf"]
+        ok = len(calls) == 1
+        extra = []
+        if ok:
+            nid = cfgc.node_of(calls[0])
+            extra = [src(e, 80) for e, t in cfgc.facts_at(nid) if not ("ip_src" in src(e, 200) or "sport" in src(e, 200))]
+            apps = [c for c in body_walk(f.node) if isinstance(c, ast.Call) and dotted(c.func) == f"self.{arm_name}_packet_buffer.append"]
+            ok = not extra and len(apps) == 1 and cfgc.dominates(cfgc.node_of(apps[0]), nid)
+        r.ob(ok, Finding("CAUS", f"session:Session.get_tls_records:{arm_name}-extract",
+                         f"get_tls_records must buffer every {arm_name} packet and call extract_{arm_name}_buf() for each of them, depending on nothing but the packet's direction; "
+                         f"found extra conditions {extra}", m.line(f.node)))
     # per arm: append to direction buffer, extract, for record in list: handle(record, flag), clear
     for arm_name, flag in (("server", True), ("client", False)):
         r.instances += 1
